@@ -74,7 +74,7 @@ def mk_call(rng, stmt, i, joined, cls="generic"):
     k = rng.choice(kinds)
     if k == "select":
         tb = rng.choice(["t"] + joined)
-        if rng.random() < 0.3:
+        if rng.random() < 0.5:
             return {"kind": k, "src": ".select(T(%r).%s.as_('alf%d'))" % (tb, fid, i), "id": i}
         return {"kind": k, "src": ".select(T(%r).%s)" % (tb, fid), "id": i}
     if k in ("where", "prewhere"):
@@ -91,7 +91,7 @@ def mk_call(rng, stmt, i, joined, cls="generic"):
             return {"kind": k, "src": ".join(T(%r).as_(%r)).on(T('t').k == T(%r).as_(%r).%s)" % (tb, tb + "a", tb, tb + "a", fid),
                     "id": i, "tbl": tb + "a"}
         return {"kind": k, "src": ".join(T(%r)).on(T('t').k == T(%r).%s)" % (tb, tb, fid), "id": i, "tbl": tb}
-    if k in ("groupby", "orderby") and rng.random() < 0.3:
+    if k in ("groupby", "orderby") and rng.random() < 0.5:
         # a column given by name: a string that may coincide with the alias of a selected term (al0..al5) or not
         if rng.random() < 0.5:
             return {"kind": k, "src": ".%s(%r)" % (k, fid), "id": i}
@@ -125,6 +125,14 @@ def generate(rng, n, tier):
         k = rng.randint(3, 7 if tier == "thorough" else 6)
         joined = []
         calls = [mk_call(rng, stmt, i, joined, cls) for i in range(k)]
+        # a GROUP BY / ORDER BY given by name: make the name coincide with the alias of a selected term of this statement in
+        # half of the cases (the reference is resolved when the statement is rendered, whatever the call order was)
+        aliased = [c["id"] for c in calls if c["kind"] == "select" and ".as_('alf" in c["src"]]
+        for c in calls:
+            if c["kind"] in ("groupby", "orderby") and c["src"].startswith(".%s('alf" % c["kind"]) and aliased and rng.random() < 0.85:
+                j = rng.choice(aliased)
+                c["src"] = ".%s('alf%d')" % (c["kind"], j)
+                c["id"] = j
         # a statement without its defining clause (select list / SET pair / row) renders as the empty text in every order
         need = {"select": "select", "update": "set", "insert": "insert"}[stmt]
         if not any(c["kind"] == need for c in calls):
